@@ -266,6 +266,19 @@ func (e *Engine) SetGroups(groups []string) {
 	}
 }
 
+// OnlyTickersParked reports whether nothing but ticker-driven goroutines
+// (compactors, merge operators) is parked: the database is idle.
+func (e *Engine) OnlyTickersParked() bool {
+	e.mu.Lock()
+	defer e.mu.Unlock()
+	for _, p := range e.parked {
+		if rl := role(p.site); rl != "compactor" && rl != "merge" {
+			return false
+		}
+	}
+	return true
+}
+
 // ParkedAt reports the site a named goroutine is currently parked at ("" = not parked).
 func (e *Engine) ParkedAt(name string) string {
 	e.mu.Lock()
